@@ -177,6 +177,20 @@ func (c *Ctx) fnOrSuccessor(rel, name string, touches ...*types.Var) *ssa.Functi
 	if len(cands) == 1 {
 		return cands[0]
 	}
+	// several new functions qualify: the one whose name still carries the old one (min -> minItem)
+	base := name
+	if i := strings.LastIndex(base, "."); i >= 0 {
+		base = base[i+1:]
+	}
+	var named []*ssa.Function
+	for _, f := range cands {
+		if strings.Contains(strings.ToLower(f.Name()), strings.ToLower(base)) {
+			named = append(named, f)
+		}
+	}
+	if len(named) == 1 {
+		return named[0]
+	}
 	c.undecided("anchor", rel+"."+name, 0, "anchored function not found (or has no body) in the current tree")
 	return nil
 }
